@@ -694,4 +694,36 @@ def encode (P : Params) (sch : Schema) (L : LRow) : Bytes :=
   let main := encMain P sch L.cur.creator L.deleter L.cur.ver L.keys L.cur.vals
   main ++ (if L.hist.isEmpty && !L.trail then [] else padTo main.length P.dhAlign) ++ encBlock P sch 0 L.hist
 
+/-! ### operation sequences (for the statement "after any sequence of updates, deletes and vacuums") -/
+
+inductive LOp
+  | update (t : Nat) (m : Mods)
+  | delete (t : Nat)
+  | vacuum (h : Nat)
+  deriving Repr
+
+def LOp.applyL : LOp → LRow → LRow
+  | .update t m, L => L.update t m
+  | .delete t, L => L.delete t
+  | .vacuum h, L => L.vacuum h
+
+def LOp.applyB (D : Defects) (P : Params) (sch : Schema) : LOp → Bytes → R Bytes
+  | .update t m, d => addVersion D P sch d m t
+  | .delete t, d => AxVerif.Tuple.delete P d t
+  | .vacuum h, d =>
+    match vacuumWith D P sch d h with
+    | .ok (_, d') => .ok d'
+    | .error e => .error e
+
+def runL : List LOp → LRow → LRow
+  | [], L => L
+  | op :: ops, L => runL ops (op.applyL L)
+
+def runB (D : Defects) (P : Params) (sch : Schema) : List LOp → Bytes → R Bytes
+  | [], d => .ok d
+  | op :: ops, d =>
+    match op.applyB D P sch d with
+    | .ok d' => runB D P sch ops d'
+    | .error e => .error e
+
 end AxVerif.Tuple
